@@ -253,6 +253,28 @@ func stackScenarios(tier string, r *vlib.Rng) []*scen.Scenario {
 			}
 		}
 	}
+	// breaker pre-histories that do not open the breaker: k earlier failures, then a connection-level failure
+	for _, bal := range []string{"priority", "round-robin"} {
+		for k := 1; k <= 4; k++ {
+			for _, kind := range []string{"refuse", "reset0"} {
+				for n := 1; n <= 2; n++ {
+					sc := &scen.Scenario{Engine: "olla", Balancer: bal, Profile: "auto", Method: "POST", Path: "/olla/proxy/v1/chat/completions",
+						ReqBody: fmt.Sprintf(`{"messages":[{"role":"user","content":"h%d"}]}`, r.Intn(1000)), Followup: true}
+					e := scen.EPSpec{Name: "A", Prio: 300, PreFail: k, Beh: scen.FaultBeh("A", kind, 50, 10, false, "application/json")}
+					sc.EPs = append(sc.EPs, e)
+					if n == 2 {
+						sc.EPs = append(sc.EPs, scen.EPSpec{Name: "B", Prio: 200, Beh: scen.OkBeh("B", 200, 40, false, "application/json")})
+					}
+					if bal != "priority" {
+						for i := range sc.EPs {
+							sc.EPs[i].Prio = 100
+						}
+					}
+					out = append(out, sc)
+				}
+			}
+		}
+	}
 	return out
 }
 
